@@ -50,7 +50,8 @@ where
         };
 
         enum Defaults<'n> {
-            Static(Vec<(Cow<'n, PropName>, Expr)>),
+            // (key, default, whether the default is a factory made here around the written value)
+            Static(Vec<(Cow<'n, PropName>, Expr, bool)>),
             Dynamic(&'n Expr),
         }
         let defaults = defaults.map(|defaults| {
@@ -72,6 +73,7 @@ where
                                         span: DUMMY_SP,
                                         ..Default::default()
                                     }),
+                                    true,
                                 )),
                                 Prop::KeyValue(KeyValueProp { key, value }) => {
                                     try_unwrap_lit_prop_name(key).map(|key| {
@@ -91,6 +93,7 @@ where
                                                     ..Default::default()
                                                 })
                                             },
+                                            !value.is_lit(),
                                         )
                                     })
                                 }
@@ -111,6 +114,7 @@ where
                                             span: DUMMY_SP,
                                             ..Default::default()
                                         }),
+                                        true,
                                     )
                                 }),
                                 Prop::Method(MethodProp { key, function }) => {
@@ -121,6 +125,7 @@ where
                                                 ident: None,
                                                 function: function.clone(),
                                             }),
+                                            false,
                                         )
                                     })
                                 }
@@ -178,7 +183,7 @@ where
     fn build_props_type(
         &self,
         TsTypeAnn { type_ann, .. }: &TsTypeAnn,
-        defaults: Option<Vec<(Cow<PropName>, Expr)>>,
+        defaults: Option<Vec<(Cow<PropName>, Expr, bool)>>,
     ) -> ObjectLit {
         let mut props = Vec::with_capacity(3);
         self.resolve_type_elements(type_ann, &mut props);
@@ -302,6 +307,9 @@ where
                             ir.types.insert(None);
                         }
                     }
+                    // Vue doesn't call the default of a prop whose only type is Function
+                    let function_only =
+                        ir.types.len() == 1 && ir.types.contains(&Some(atom!("Function")));
                     let build_type = |ty: Option<Atom>| match ty {
                         Some(ty) if ty != "null" => Expr::Ident(quote_ident!(ty).into()),
                         _ => Expr::Lit(Lit::Null(Null { span: DUMMY_SP })),
@@ -345,25 +353,31 @@ where
                         }))));
                     }
                     // a key written twice in the default object: JavaScript keeps the last one
-                    if let Some((_, default)) = defaults.iter().flatten().rev().find(|(name, _)| {
-                        name.eq_ignore_span(&prop_name)
-                            || if let (
-                                PropName::Ident(IdentName { sym: a, .. }),
-                                PropName::Str(Str { value: b, .. }),
-                            )
-                            | (
-                                PropName::Str(Str { value: a, .. }),
-                                PropName::Ident(IdentName { sym: b, .. }),
-                            ) = (&**name, &prop_name)
-                            {
-                                a == b
-                            } else {
-                                false
-                            }
-                    }) {
+                    if let Some((_, default, is_factory)) =
+                        defaults.iter().flatten().rev().find(|(name, ..)| {
+                            name.eq_ignore_span(&prop_name)
+                                || if let (
+                                    PropName::Ident(IdentName { sym: a, .. }),
+                                    PropName::Str(Str { value: b, .. }),
+                                )
+                                | (
+                                    PropName::Str(Str { value: a, .. }),
+                                    PropName::Ident(IdentName { sym: b, .. }),
+                                ) = (&**name, &prop_name)
+                                {
+                                    a == b
+                                } else {
+                                    false
+                                }
+                        })
+                    {
                         props.push(PropOrSpread::Prop(Box::new(Prop::KeyValue(KeyValueProp {
                             key: PropName::Ident(quote_ident!("default")),
-                            value: Box::new(default.clone()),
+                            value: Box::new(if *is_factory && function_only {
+                                call_factory(default)
+                            } else {
+                                default.clone()
+                            }),
                         }))));
                     }
                     PropOrSpread::Prop(Box::new(Prop::KeyValue(KeyValueProp {
@@ -1243,6 +1257,25 @@ fn try_unwrap_lit_prop_name(prop_name: &PropName) -> Option<Cow<PropName>> {
             Expr::Lit(Lit::BigInt(bigint)) => Some(Cow::Owned(PropName::BigInt(bigint.clone()))),
             _ => None,
         },
+    }
+}
+
+/// The value a default factory made by `extract_props_type` returns.
+fn call_factory(factory: &Expr) -> Expr {
+    match factory {
+        Expr::Arrow(ArrowExpr { body, .. }) => match &**body {
+            BlockStmtOrExpr::Expr(expr) => (**expr).clone(),
+            BlockStmtOrExpr::BlockStmt(..) => Expr::Call(CallExpr {
+                callee: Callee::Expr(Box::new(Expr::Paren(ParenExpr {
+                    expr: Box::new(factory.clone()),
+                    span: DUMMY_SP,
+                }))),
+                args: vec![],
+                span: DUMMY_SP,
+                ..Default::default()
+            }),
+        },
+        _ => factory.clone(),
     }
 }
 
